@@ -4,12 +4,12 @@
 set -e
 HERE="$(cd "$(dirname "$0")" && pwd)"
 V="$HERE/.work/venv"
-if [ ! -x "$V/bin/python" ] || ! "$V/bin/python" -c "import z3, numpy" >/dev/null 2>&1; then
+if [ ! -x "$V/bin/python" ] || ! "$V/bin/python" -c "import z3, numpy, sympy" >/dev/null 2>&1; then
   rm -rf "$V"
   mkdir -p "$HERE/.work"
   /venv/bin/python -m venv "$V"
-  PIP_NO_INDEX=1 "$V/bin/python" -m pip install --quiet --no-index --find-links /opt/veriftools/wheels z3-solver jsonschema >/dev/null
+  PIP_NO_INDEX=1 "$V/bin/python" -m pip install --quiet --no-index --find-links /opt/veriftools/wheels z3-solver jsonschema sympy mpmath >/dev/null
   SP="$("$V/bin/python" -c 'import sysconfig; print(sysconfig.get_paths()["purelib"])')"
   echo "import site; site.addsitedir('/venv/lib/python3.12/site-packages')" > "$SP/zz_repo_venv.pth"
 fi
-"$V/bin/python" -c "import z3, numpy, importlib.util; print('overlay venv ok: z3', z3.get_version_string(), 'numpy', numpy.__version__)"
+"$V/bin/python" -c "import z3, numpy, sympy, importlib.util; print('overlay venv ok: z3', z3.get_version_string(), 'numpy', numpy.__version__, 'sympy', sympy.__version__)"
